@@ -20,9 +20,12 @@ def _mval(x, values):
     return x
 
 
-def apply_real(c, op, params=None):
-    """Apply one op to the real circuit c; returns the (possibly new) circuit."""
+def apply_real(c, op, params=None, cast=None):
+    """Apply one op to the real circuit c; returns the (possibly new) circuit.
+    cast: optional function applied to every mode argument (e.g. numpy.int64)."""
     import lightworks as lw
+    if cast is not None:
+        op = _cast_modes(op, cast)
     k = op[0]
     if k == "bs":
         _, m1, m2, r, conv, loss = op
@@ -38,7 +41,8 @@ def apply_real(c, op, params=None):
     elif k == "barrier":
         c.barrier(None if op[1] is None else list(op[1]))
     elif k == "swaps":
-        c.mode_swaps({int(a): int(b) for a, b in op[1]})
+        f_ = cast or int
+        c.mode_swaps({f_(a): f_(b) for a, b in op[1]})
     elif k == "unitary":
         _, m, kind, kk, seed = op
         c.add(lw.Unitary(make_unitary(kind, kk, seed)), m)
@@ -48,16 +52,34 @@ def apply_real(c, op, params=None):
         else:
             c.herald(op[1], op[2], op[3])
     elif k == "add":
-        child = build_real(op[1], params)
+        child = build_real(op[1], params, cast)
         c.add(child, op[2], group=bool(op[3]), name=op[4])
     elif k == "plus":
-        c = c + build_real(op[1], params)
+        c = c + build_real(op[1], params, cast)
     elif k == "gate":
         # ["gate", name, kwargs, mode] - a circuit from lightworks.qubit
         c.add(make_gate(op[1], op[2]), op[3])
     else:
         raise ValueError(f"unknown op {k}")
     return c
+
+
+def _cast_modes(op, cast):
+    op = list(op)
+    k = op[0]
+    if k == "bs":
+        op[1] = cast(op[1])
+        op[2] = None if op[2] is None else cast(op[2])
+    elif k in ("ps", "loss", "unitary"):
+        op[1] = cast(op[1])
+    elif k == "barrier":
+        op[1] = None if op[1] is None else [cast(m) for m in op[1]]
+    elif k == "herald":
+        op[2] = cast(op[2])
+        op[3] = None if op[3] is None else cast(op[3])
+    elif k == "add":
+        op[2] = cast(op[2])
+    return op
 
 
 def make_gate(name, kwargs):
@@ -70,11 +92,11 @@ def make_gate(name, kwargs):
     return getattr(qubit, name)(**kw)
 
 
-def build_real(prog, params=None):
+def build_real(prog, params=None, cast=None):
     import lightworks as lw
     c = lw.Circuit(prog["n"])
     for op in prog["ops"]:
-        c = apply_real(c, op, params)
+        c = apply_real(c, op, params, cast)
     return c
 
 
